@@ -6,6 +6,7 @@ import (
 	"github.com/bronlabs/bron-crypto/pkg/base/curves"
 	"github.com/bronlabs/bron-crypto/pkg/base/curves/pairable/bls12381"
 	"github.com/bronlabs/bron-crypto/pkg/base/datastructures/hashmap"
+	"github.com/bronlabs/bron-crypto/pkg/base/serde"
 	"github.com/bronlabs/bron-crypto/pkg/mpc"
 	"github.com/bronlabs/bron-crypto/pkg/mpc/session"
 	"github.com/bronlabs/bron-crypto/pkg/mpc/signatures/bls/boldyreva02"
@@ -70,18 +71,37 @@ func BLSSigners() []BLSSigner {
 
 func family() blsFamily { return &bls12381.FamilyTrait{} }
 
-// Sign lets every quorum member produce its partial signature (the protocol is non-interactive),
-// aggregates them with the library aggregator and returns the signature.
-func (s BLSSigner) Sign(ctxs map[ID]*session.Context, shards map[ID]any, quorum []ID, message []byte) (*BLSSig, error) {
-	if s.Short {
-		ps := hashmap.NewComparable[ID, *boldyreva02.PartialSignature[*bls12381.PointG2, *bls12381.BaseFieldElementG2, *bls12381.PointG1, *bls12381.BaseFieldElementG1, *bls12381.GtElement, *bls12381.Scalar]]()
-		var pm *boldyreva02.PublicMaterial[*bls12381.PointG1, *bls12381.BaseFieldElementG1, *bls12381.PointG2, *bls12381.BaseFieldElementG2, *bls12381.GtElement, *bls12381.Scalar]
-		for _, id := range quorum {
-			bs, ok := shards[id].(*mpc.BaseShard[*bls12381.PointG1, *bls12381.Scalar])
-			if !ok {
-				return nil, fmt.Errorf("shard of %d is %T", id, shards[id])
-			}
-			sh, err := bkeygen.NewShortKeyShard[*bls12381.PointG1, *bls12381.BaseFieldElementG1, *bls12381.PointG2, *bls12381.BaseFieldElementG2, *bls12381.GtElement, *bls12381.Scalar](bs)
+type (
+	shortPartial = boldyreva02.PartialSignature[*bls12381.PointG2, *bls12381.BaseFieldElementG2, *bls12381.PointG1, *bls12381.BaseFieldElementG1, *bls12381.GtElement, *bls12381.Scalar]
+	longPartial  = boldyreva02.PartialSignature[*bls12381.PointG1, *bls12381.BaseFieldElementG1, *bls12381.PointG2, *bls12381.BaseFieldElementG2, *bls12381.GtElement, *bls12381.Scalar]
+	shortPM      = boldyreva02.PublicMaterial[*bls12381.PointG1, *bls12381.BaseFieldElementG1, *bls12381.PointG2, *bls12381.BaseFieldElementG2, *bls12381.GtElement, *bls12381.Scalar]
+	longPM       = boldyreva02.PublicMaterial[*bls12381.PointG2, *bls12381.BaseFieldElementG2, *bls12381.PointG1, *bls12381.BaseFieldElementG1, *bls12381.GtElement, *bls12381.Scalar]
+)
+
+func (s BLSSigner) shortShard(v any) (*boldyreva02.Shard[*bls12381.PointG1, *bls12381.BaseFieldElementG1, *bls12381.PointG2, *bls12381.BaseFieldElementG2, *bls12381.GtElement, *bls12381.Scalar], error) {
+	bs, ok := v.(*mpc.BaseShard[*bls12381.PointG1, *bls12381.Scalar])
+	if !ok {
+		return nil, fmt.Errorf("shard is %T", v)
+	}
+	return bkeygen.NewShortKeyShard[*bls12381.PointG1, *bls12381.BaseFieldElementG1, *bls12381.PointG2, *bls12381.BaseFieldElementG2, *bls12381.GtElement, *bls12381.Scalar](bs)
+}
+
+func (s BLSSigner) longShard(v any) (*boldyreva02.Shard[*bls12381.PointG2, *bls12381.BaseFieldElementG2, *bls12381.PointG1, *bls12381.BaseFieldElementG1, *bls12381.GtElement, *bls12381.Scalar], error) {
+	bs, ok := v.(*mpc.BaseShard[*bls12381.PointG2, *bls12381.Scalar])
+	if !ok {
+		return nil, fmt.Errorf("shard is %T", v)
+	}
+	return bkeygen.NewLongKeyShard[*bls12381.PointG2, *bls12381.BaseFieldElementG2, *bls12381.PointG1, *bls12381.BaseFieldElementG1, *bls12381.GtElement, *bls12381.Scalar](bs)
+}
+
+// Partials lets every quorum member produce its partial signature (the protocol is
+// non-interactive) and returns their CBOR encodings - what travels to the aggregator.
+func (s BLSSigner) Partials(ctxs map[ID]*session.Context, shards map[ID]any, quorum []ID, message []byte) (map[ID][]byte, error) {
+	out := map[ID][]byte{}
+	for _, id := range quorum {
+		var enc []byte
+		if s.Short {
+			sh, err := s.shortShard(shards[id])
 			if err != nil {
 				return nil, err
 			}
@@ -93,8 +113,54 @@ func (s BLSSigner) Sign(ctxs map[ID]*session.Context, shards map[ID]any, quorum 
 			if err != nil {
 				return nil, fmt.Errorf("partial signature of %d: %w", id, err)
 			}
+			if enc, err = serde.MarshalCBOR(p); err != nil {
+				return nil, err
+			}
+		} else {
+			sh, err := s.longShard(shards[id])
+			if err != nil {
+				return nil, err
+			}
+			c, err := bsigning.NewLongKeyCosigner(ctxs[id], family(), sh, s.Mode)
+			if err != nil {
+				return nil, fmt.Errorf("cosigner %d: %w", id, err)
+			}
+			p, err := c.ProducePartialSignature(message)
+			if err != nil {
+				return nil, fmt.Errorf("partial signature of %d: %w", id, err)
+			}
+			if enc, err = serde.MarshalCBOR(p); err != nil {
+				return nil, err
+			}
+		}
+		out[id] = enc
+	}
+	return out, nil
+}
+
+// ErrReleasedInvalid marks the one outcome that is a violation: the library aggregator RETURNED
+// a signature, and that signature fails public verification.
+var ErrReleasedInvalid = fmt.Errorf("aggregator released a signature that fails verification")
+
+// Aggregate decodes the partial signatures and runs the library aggregator of one holder's
+// public material. A decode error or an aggregator error is an ordinary rejection. If a
+// signature is released it is checked with the library verifier (for this and another message)
+// and with the pairing equation recomputed by the harness; a failure is ErrReleasedInvalid.
+func (s BLSSigner) Aggregate(anyShard any, message []byte, partials map[ID][]byte) (*BLSSig, error) {
+	other := append(append([]byte{}, message...), 1)
+	if s.Short {
+		sh, err := s.shortShard(anyShard)
+		if err != nil {
+			return nil, err
+		}
+		pm := sh.PublicKeyMaterial()
+		ps := hashmap.NewComparable[ID, *shortPartial]()
+		for id, b := range partials {
+			p, err := serde.UnmarshalCBOR[*shortPartial](b)
+			if err != nil {
+				return nil, fmt.Errorf("partial signature of %d does not decode: %w", id, err)
+			}
 			ps.Put(id, p)
-			pm = c.Shard().PublicKeyMaterial()
 		}
 		agg, err := bsigning.NewShortKeyAggregator(family(), pm, s.Mode)
 		if err != nil {
@@ -113,38 +179,28 @@ func (s BLSSigner) Sign(ctxs map[ID]*session.Context, shards map[ID]any, quorum 
 			return nil, err
 		}
 		if err := v.Verify(sig, pm.PublicKey(), message); err != nil {
-			return nil, fmt.Errorf("LIBRARY-VERIFIER-REJECTS: %w", err)
+			return nil, fmt.Errorf("%w: LIBRARY-VERIFIER-REJECTS: %v", ErrReleasedInvalid, err)
 		}
-		other := append(append([]byte{}, message...), 1)
 		if err := v.Verify(sig, pm.PublicKey(), other); err == nil {
-			return nil, fmt.Errorf("LIBRARY-VERIFIER-ACCEPTS-OTHER-MESSAGE")
+			return nil, fmt.Errorf("%w: LIBRARY-VERIFIER-ACCEPTS-OTHER-MESSAGE", ErrReleasedInvalid)
 		}
 		if err := pairingEquationShort(pm.PublicKey().Value(), sig.Value(), s.Mode, message); err != nil {
-			return nil, fmt.Errorf("PAIRING-EQUATION: %w", err)
+			return nil, fmt.Errorf("%w: PAIRING-EQUATION: %v", ErrReleasedInvalid, err)
 		}
 		return &BLSSig{Bytes: sig.Value().Bytes(), raw: sig}, nil
 	}
-	ps := hashmap.NewComparable[ID, *boldyreva02.PartialSignature[*bls12381.PointG1, *bls12381.BaseFieldElementG1, *bls12381.PointG2, *bls12381.BaseFieldElementG2, *bls12381.GtElement, *bls12381.Scalar]]()
-	var pm *boldyreva02.PublicMaterial[*bls12381.PointG2, *bls12381.BaseFieldElementG2, *bls12381.PointG1, *bls12381.BaseFieldElementG1, *bls12381.GtElement, *bls12381.Scalar]
-	for _, id := range quorum {
-		bs, ok := shards[id].(*mpc.BaseShard[*bls12381.PointG2, *bls12381.Scalar])
-		if !ok {
-			return nil, fmt.Errorf("shard of %d is %T", id, shards[id])
-		}
-		sh, err := bkeygen.NewLongKeyShard[*bls12381.PointG2, *bls12381.BaseFieldElementG2, *bls12381.PointG1, *bls12381.BaseFieldElementG1, *bls12381.GtElement, *bls12381.Scalar](bs)
+	sh, err := s.longShard(anyShard)
+	if err != nil {
+		return nil, err
+	}
+	pm := sh.PublicKeyMaterial()
+	ps := hashmap.NewComparable[ID, *longPartial]()
+	for id, b := range partials {
+		p, err := serde.UnmarshalCBOR[*longPartial](b)
 		if err != nil {
-			return nil, err
-		}
-		c, err := bsigning.NewLongKeyCosigner(ctxs[id], family(), sh, s.Mode)
-		if err != nil {
-			return nil, fmt.Errorf("cosigner %d: %w", id, err)
-		}
-		p, err := c.ProducePartialSignature(message)
-		if err != nil {
-			return nil, fmt.Errorf("partial signature of %d: %w", id, err)
+			return nil, fmt.Errorf("partial signature of %d does not decode: %w", id, err)
 		}
 		ps.Put(id, p)
-		pm = c.Shard().PublicKeyMaterial()
 	}
 	agg, err := bsigning.NewLongKeyAggregator(family(), pm, s.Mode)
 	if err != nil {
@@ -163,16 +219,24 @@ func (s BLSSigner) Sign(ctxs map[ID]*session.Context, shards map[ID]any, quorum 
 		return nil, err
 	}
 	if err := v.Verify(sig, pm.PublicKey(), message); err != nil {
-		return nil, fmt.Errorf("LIBRARY-VERIFIER-REJECTS: %w", err)
+		return nil, fmt.Errorf("%w: LIBRARY-VERIFIER-REJECTS: %v", ErrReleasedInvalid, err)
 	}
-	other := append(append([]byte{}, message...), 1)
 	if err := v.Verify(sig, pm.PublicKey(), other); err == nil {
-		return nil, fmt.Errorf("LIBRARY-VERIFIER-ACCEPTS-OTHER-MESSAGE")
+		return nil, fmt.Errorf("%w: LIBRARY-VERIFIER-ACCEPTS-OTHER-MESSAGE", ErrReleasedInvalid)
 	}
 	if err := pairingEquationLong(pm.PublicKey().Value(), sig.Value(), s.Mode, message); err != nil {
-		return nil, fmt.Errorf("PAIRING-EQUATION: %w", err)
+		return nil, fmt.Errorf("%w: PAIRING-EQUATION: %v", ErrReleasedInvalid, err)
 	}
 	return &BLSSig{Bytes: sig.Value().Bytes(), raw: sig}, nil
+}
+
+// Sign = Partials followed by Aggregate with the first quorum member's public material.
+func (s BLSSigner) Sign(ctxs map[ID]*session.Context, shards map[ID]any, quorum []ID, message []byte) (*BLSSig, error) {
+	ps, err := s.Partials(ctxs, shards, quorum, message)
+	if err != nil {
+		return nil, err
+	}
+	return s.Aggregate(shards[quorum[0]], message, ps)
 }
 
 // The ciphersuite tags of draft-irtf-cfrg-bls-signature, typed in from the draft.
